@@ -154,6 +154,10 @@ type batchReq struct {
 	Kind string `json:"kind"` // gated | free | statfs | badfid | flush-own | flush-idle | flush-of | mkdir | walk
 	Tag  uint16 `json:"tag"`
 	Of   int    `json:"of,omitempty"` // flush-of: index of the target request
+	// Held (gated only): which backend call the request is held in: "" GetAttr of
+	// a Tgetattr; "clunk" the Close made by a Tclunk; "replace" the Close of the
+	// File a Twalk's newfid was bound to before
+	Held string `json:"held,omitempty"`
 }
 
 type batchCase struct {
@@ -193,6 +197,11 @@ func runBatchCase(c batchCase, st *batchStats) *fail {
 		switch r.Kind {
 		case "gated", "free":
 			m = tGetattr(fid)
+			if r.Kind == "gated" && r.Held == "clunk" {
+				m = tClunk(fid)
+			} else if r.Kind == "gated" && r.Held == "replace" {
+				m = tWalk(0, fid, "P", "kdB")
+			}
 		case "statfs":
 			m = tStatfs(fid)
 		case "badfid":
@@ -259,7 +268,11 @@ func runBatchCase(c batchCase, st *batchStats) *fail {
 		if r.Kind == "gated" {
 			h := p.handles[uint64(100+i)]
 			s.gated = true
-			s.gate = memfs.NewGate(func(cl *memfs.Call) bool { return cl.Handle == h && cl.Op == "GetAttr" })
+			op := "GetAttr"
+			if r.Held != "" {
+				op = "Close"
+			}
+			s.gate = memfs.NewGate(func(cl *memfs.Call) bool { return cl.Handle == h && cl.Op == op })
 			p.fs.AddGate(s.gate)
 			heldTags[r.Tag] = true
 		}
@@ -424,6 +437,7 @@ func genBatchCase(rt *rapid.T, maxN int) batchCase {
 		switch {
 		case k <= 4:
 			r.Kind = "gated"
+			r.Held = rapid.SampledFrom([]string{"", "", "", "clunk", "replace"}).Draw(rt, "held")
 			gated = append(gated, i)
 		case k == 5:
 			r.Kind = "free"
@@ -510,6 +524,32 @@ func TestC06(t *testing.T) {
 			}
 		}
 		h.Exhaustive(fmt.Sprintf("1..%d simultaneously held requests x every release order x {no extra, flush of own tag, of an idle tag, of a held request, an unrelated request}", maxK))
+		// the same with requests held inside the release (Close) of a File
+		for _, heldIn := range []string{"clunk", "replace"} {
+			for k := 1; k <= 3; k++ {
+				idx := make([]int, k)
+				for i := range idx {
+					idx[i] = i
+				}
+				for _, perm := range permutations(idx) {
+					for _, extra := range []string{"free", "statfs", "walk", "flush-of", "flush-idle"} {
+						c := batchCase{Native: k%2 == 0}
+						for i := 0; i < k; i++ {
+							c.Reqs = append(c.Reqs, batchReq{Kind: "gated", Tag: uint16(10 + i), Held: heldIn})
+						}
+						c.Reqs = append(c.Reqs, batchReq{Kind: extra, Tag: 40, Of: 0})
+						c.Release = perm
+						st := &batchStats{}
+						f := runBatchCase(c, st)
+						record(c, st, "enumerated:held-in-close")
+						if h.report("enumerated", f, c) {
+							return
+						}
+					}
+				}
+			}
+		}
+		h.Exhaustive("1..3 requests held inside the Close of a File (Tclunk; Twalk replacing a bound fid) x every release order x {unrelated getattr, statfs, walk, flush of a held request, flush of an idle tag}")
 	}
 	rapidCases(h, "batches", env.PerShard(env.Pick(2400, 200000)), func(rt *rapid.T) batchCase {
 		return genBatchCase(rt, env.Pick(6, 24))
